@@ -45,7 +45,10 @@ def is_node(x: Any) -> bool:
 def is_passthrough(x: Any) -> bool:
     """Structured non-node values whose fields may hold nodes."""
     t = T()
-    return isinstance(x, (t["CSRMatrix"], t["NormalizedSlice"], t["DistributedSend"]))
+    # NormalizedSlice is deliberately NOT descended into: no pytato mapper traverses the
+    # (possibly symbolic) start/stop of a normalised slice -- a uniform convention, the size
+    # parameters in them are always reachable through the operand's shape as well.
+    return isinstance(x, (t["CSRMatrix"], t["DistributedSend"]))
 
 
 def field_items(obj: Any) -> list[tuple[str, Any]]:
@@ -102,7 +105,8 @@ def edge_kind(path: str) -> str:
     return "operand"
 
 
-def walk(root: Any, enter_functions: bool = True) -> list[Any]:
+def walk(root: Any, enter_functions: bool = True,
+         skip_kinds: tuple[str, ...] = ()) -> list[Any]:
     """All nodes reachable from *root* (including root), each object once, in
     a deterministic post-order."""
     seen: set[int] = set()
@@ -119,6 +123,8 @@ def walk(root: Any, enter_functions: bool = True) -> list[Any]:
         stack.append((n, True))
         for path, c in reversed(edges(n)):
             if not enter_functions and edge_kind(path) == "function_body":
+                continue
+            if skip_kinds and edge_kind(path) in skip_kinds:
                 continue
             if id(c) not in seen:
                 stack.append((c, False))
@@ -292,6 +298,16 @@ def _construct_like(n: Any, vals: dict[str, Any]) -> Any:
     pt = t["pt"]
     if isinstance(n, pt.DictOfNamedArrays):
         return pt.DictOfNamedArrays(vals["_data"], tags=vals["tags"])
+    if isinstance(n, pt.NamedArray):
+        # named results are handed out (memoised) by their container; go through it so
+        # that the container's own `[name]` yields this very object
+        try:
+            r = vals["_container"][vals["name"]]
+            if type(r) is type(n) and r.tags == vals["tags"] and r.axes == vals["axes"] \
+                    and r.non_equality_tags == vals.get("non_equality_tags", frozenset()):
+                return r
+        except Exception:  # noqa: BLE001
+            pass
     init_fields = {f.name for f in dataclasses.fields(n) if f.init}
     return type(n)(**{k: v for k, v in vals.items() if k in init_fields})
 
@@ -300,3 +316,38 @@ def replace_field(n: Any, **changes: Any) -> Any:
     vals = dict(field_items(n))
     vals.update(changes)
     return _construct_like(n, vals)
+
+
+def hashcons(root: Any) -> Any:
+    """A duplicate-free copy: structurally equal nodes become one object (decided by the
+    reflective fingerprint, not by pytato's equality)."""
+    fp = Fingerprinter(with_neq_tags=True)
+    canon: dict[str, Any] = {}
+
+    def fn(n: Any, vals: dict[str, Any]) -> Any:
+        changed = any(vals[k] is not getattr(n, k) for k in vals)
+        res = _construct_like(n, vals) if changed else n
+        key = fp.node(res)
+        if key in canon:
+            return canon[key]
+        canon[key] = res
+        return res
+    return rebuild(root, fn)
+
+
+def duplicate_groups(root: Any) -> int:
+    """Number of structurally equal pairs of distinct node objects reachable from root."""
+    fp = Fingerprinter(with_neq_tags=True)
+    seen: dict[str, int] = {}
+    dups = 0
+    for n in walk(root):
+        k = fp.node(n)
+        if k in seen:
+            dups += 1
+        seen[k] = seen.get(k, 0) + 1
+    return dups
+
+
+def clone_node(n: Any) -> Any:
+    """A distinct object structurally equal to *n* (same children objects)."""
+    return _construct_like(n, dict(field_items(n)))
